@@ -210,6 +210,11 @@ func (ex *Exec) binopBV(fr *frame, op token.Token, t types.Type, x, y BV) Value 
 	if op == token.SHL || op == token.SHR {
 		return ex.shift(fr, op, signed, x, y)
 	}
+	if ex.scaled != nil && (op == token.LSS || op == token.LEQ || op == token.GTR || op == token.GEQ || op == token.EQL || op == token.NEQ) {
+		if v, ok := ex.scaledCmp(op, x, y); ok {
+			return v
+		}
+	}
 	if x.w != y.w {
 		panic(engineError{fmt.Sprintf("binop %s width mismatch %d %d at %s", op, x.w, y.w, fr.where())})
 	}
